@@ -127,6 +127,8 @@ type env struct {
 	scale  float64 // multiplies case counts (VERIF_SCALE), default 1
 
 	pending []pendingOp
+
+	corpusDone bool
 }
 
 func (e *env) n(quick, thorough int) int {
